@@ -17,6 +17,7 @@ package main
 import (
 	"fmt"
 	"net/url"
+	"os"
 	"runtime/debug"
 	"sort"
 	"strings"
@@ -27,6 +28,7 @@ import (
 	"github.com/pentops/j5/lib/j5codec"
 	"github.com/pentops/j5/lib/j5reflect"
 	"github.com/pentops/j5/lib/j5schema"
+	"google.golang.org/protobuf/encoding/prototext"
 	"google.golang.org/protobuf/reflect/protoreflect"
 	"google.golang.org/protobuf/reflect/protoregistry"
 	"google.golang.org/protobuf/types/descriptorpb"
@@ -63,11 +65,14 @@ func execReflect(h *vh.H, op string) string {
 	if !ok {
 		return "bad-op"
 	}
+	if os.Getenv("SCHEMAH_PRINT") != "" {
+		fmt.Fprintln(os.Stderr, prototext.Format(fds))
+	}
 	ch := make(chan string, 1)
 	go func() {
 		defer func() {
 			if r := recover(); r != nil {
-				h.Fail("panic:harness:"+panicSite(), op, fmt.Sprint(r))
+				fail(h, "panic:harness:"+panicSite(), op, fmt.Sprint(r))
 				ch <- "panic"
 			}
 		}()
@@ -77,9 +82,31 @@ func execReflect(h *vh.H, op string) string {
 	case res := <-ch:
 		return res
 	case <-time.After(opTimeout):
-		h.Fail("hang", op, "no result after "+opTimeout.String())
+		fail(h, "hang", op, "no result after "+opTimeout.String())
 		return "hang"
 	}
+}
+
+// sigSuffix qualifies every signature of the op being executed (ops run one at a time).
+var sigSuffix string
+
+// fail records an oracle failure. In an op whose descriptors collide on a J5 schema name (Foo_Bar
+// vs Foo.Bar) every symptom is folded into a handful of signatures of that one class.
+func fail(h *vh.H, sig, op, detail string) {
+	if sigSuffix != "" {
+		switch {
+		case strings.HasPrefix(sig, "panic:codec:"):
+			sig = "name-collision:panic:codec"
+		case strings.HasPrefix(sig, "panic:"):
+			sig = "name-collision:" + strings.Join(strings.SplitN(sig, ":", 3)[:2], ":")
+		case sig == "hang":
+			sig = "name-collision:hang"
+		default:
+			sig = "name-collision:inconsistent"
+		}
+		detail = "[colliding schema names] " + detail
+	}
+	h.Fail(sig, op, detail)
 }
 
 // splitName mirrors j5schema.splitDescriptorName (package, names joined by "_").
@@ -177,8 +204,11 @@ func reflectOnce(h *vh.H, op string, fds *descriptorpb.FileDescriptorSet) string
 	}
 	include := func(fd protoreflect.FileDescriptor) bool { return own[fd.Path()] }
 	idx, collide := buildIndex(gen)
+	sigSuffix = ""
 	if collide {
+		// two descriptors map to one J5 schema name (Foo_Bar vs Foo.Bar): a class of its own
 		h.Count("reflect.name-collision")
+		sigSuffix = "@name-collision"
 	}
 
 	// ---- 1. SchemaSetFromFiles
@@ -188,7 +218,7 @@ func reflectOnce(h *vh.H, op string, fds *descriptorpb.FileDescriptorSet) string
 	var setRes string
 	switch {
 	case panicked:
-		h.Fail("panic:SchemaSetFromFiles:"+site, op, msg)
+		fail(h, "panic:SchemaSetFromFiles:"+site, op, msg)
 		setRes = "panic"
 	case serr != nil:
 		debugf("set err: %v", serr)
@@ -210,7 +240,8 @@ func reflectOnce(h *vh.H, op string, fds *descriptorpb.FileDescriptorSet) string
 	cache := j5schema.NewSchemaCache()
 	refl := j5reflect.NewWithCache(cache)
 	codec := j5codec.NewCodec(j5codec.WithProtoToAny())
-	var cres []string
+	var cres, classes []string
+	var dupClient []bool
 	for _, md := range msgs {
 		_, sn := splitName(md)
 		var root j5schema.RootSchema
@@ -219,12 +250,12 @@ func reflectOnce(h *vh.H, op string, fds *descriptorpb.FileDescriptorSet) string
 		class := "ok"
 		switch {
 		case panicked:
-			h.Fail("panic:SchemaCache.Schema:"+site, op, string(md.FullName())+": "+msg)
+			fail(h, "panic:SchemaCache.Schema:"+site, op, string(md.FullName())+": "+msg)
 			class = "panic"
 		case cerr != nil:
 			class = "err"
 		case root == nil || isNilRoot(root):
-			h.Fail("schema-nil-without-error", op, string(md.FullName()))
+			fail(h, "schema-nil-without-error", op, string(md.FullName()))
 			class = "nil"
 		}
 		h.Count("reflect.cache." + class)
@@ -239,14 +270,54 @@ func reflectOnce(h *vh.H, op string, fds *descriptorpb.FileDescriptorSet) string
 		site, panicked, msg = guard(func() { rr, rerr = refl.NewRoot(dynamicpb.NewMessage(md)) })
 		switch {
 		case panicked:
-			h.Fail("panic:NewRoot:"+site, op, string(md.FullName())+": "+msg)
+			fail(h, "panic:NewRoot:"+site, op, string(md.FullName())+": "+msg)
 		case rr == nil && rerr == nil:
-			h.Fail("newroot-nil-nil", op, string(md.FullName())+": NewRoot returned (nil, nil)")
+			fail(h, "newroot-nil-nil", op, string(md.FullName())+": NewRoot returned (nil, nil)")
 		case class == "ok" && rerr != nil:
-			h.Fail("newroot-error-after-schema-ok", op, string(md.FullName())+": "+rerr.Error())
+			fail(h, "newroot-error-after-schema-ok", op, string(md.FullName())+": "+rerr.Error())
 		}
 
-		checkCodec(h, op, codec, md, class)
+		classes = append(classes, class)
+		dup := false
+		if class == "ok" {
+			if obj, ok := root.(*j5schema.ObjectSchema); ok {
+				var cp []*j5schema.ObjectProperty
+				if _, panicked, _ := guard(func() { cp = obj.ClientProperties() }); !panicked {
+					names := map[string]bool{}
+					for _, p := range cp {
+						if names[p.JSONName] {
+							dup = true
+							fail(h, "duplicate-client-property-name", op, obj.FullName()+"."+p.JSONName+" (through a flattened field)")
+							break
+						}
+						names[p.JSONName] = true
+					}
+				}
+			}
+		}
+		dupClient = append(dupClient, dup)
+	}
+	// codec: empty + one field at a time for every message; the all-fields case only when nothing
+	// failed before (it would repeat a per-field finding under a broader signature)
+	failed := false
+	for i, md := range msgs {
+		if classes[i] == "ok" && dupClient[i] {
+			// names are not unique among the client properties (a flattened field brings a name
+			// the parent already has): reported above; the codec cannot be meaningful here
+			h.Count("reflect.codec.skipped-flatten-name-clash")
+			failed = true
+			continue
+		}
+		if !checkCodec(h, op, codec, md, classes[i]) {
+			failed = true
+		}
+	}
+	if !failed {
+		for i, md := range msgs {
+			if classes[i] == "ok" {
+				checkCodecAll(h, op, codec, md)
+			}
+		}
 	}
 	return "set=" + setRes + " cache=[ " + strings.Join(cres, " ") + " ]"
 }
@@ -270,7 +341,7 @@ func checkSet(h *vh.H, op, via string, pkgs map[string]*j5schema.Package, idx na
 	for _, p := range pkgs {
 		for k, r := range p.Schemas {
 			if r.To == nil || isNilRoot(r.To) {
-				h.Fail("set-entry-unlinked", op, p.Name+"."+k)
+				fail(h, "set-entry-unlinked", op, p.Name+"."+k)
 				continue
 			}
 			checkRoot(h, op, via, r.To, idx, seen)
@@ -308,24 +379,24 @@ func checkRoot(h *vh.H, op, via string, root j5schema.RootSchema, idx nameIndex,
 	case protoreflect.OneofDescriptor:
 		md = d.Parent().(protoreflect.MessageDescriptor) // exposed oneof: paths are relative to the parent
 	default:
-		h.Fail("schema-kind-mismatch:root", op, fmt.Sprintf("%s: %T is described by %T", full, root, ds[0]))
+		fail(h, "schema-kind-mismatch:root", op, fmt.Sprintf("%s: %T is described by %T", full, root, ds[0]))
 		return
 	}
 	names := map[string]bool{}
 	for _, p := range props {
 		if names[p.JSONName] {
-			h.Fail("duplicate-property-name", op, full+"."+p.JSONName)
+			fail(h, "duplicate-property-name", op, full+"."+p.JSONName)
 		}
 		names[p.JSONName] = true
 		where := full + "." + p.JSONName
 		if len(p.ProtoField) == 0 {
 			of, ok := p.Schema.(*j5schema.OneofField)
 			if !ok {
-				h.Fail("path-empty", op, where)
+				fail(h, "path-empty", op, where)
 				continue
 			}
 			if of.Ref == nil || of.Ref.To == nil {
-				h.Fail("ref-unlinked", op, where)
+				fail(h, "ref-unlinked", op, where)
 				continue
 			}
 			checkRoot(h, op, via, of.Ref.To, idx, seen)
@@ -337,13 +408,13 @@ func checkRoot(h *vh.H, op, via string, root j5schema.RootSchema, idx nameIndex,
 		for i, n := range p.ProtoField {
 			fd = walk.Fields().ByNumber(n)
 			if fd == nil {
-				h.Fail("path-unresolved", op, fmt.Sprintf("%s: field %d not in %s", where, n, walk.FullName()))
+				fail(h, "path-unresolved", op, fmt.Sprintf("%s: field %d not in %s", where, n, walk.FullName()))
 				okPath = false
 				break
 			}
 			if i < len(p.ProtoField)-1 {
 				if fd.Kind() != protoreflect.MessageKind || fd.IsList() || fd.IsMap() {
-					h.Fail("path-through-non-message", op, where)
+					fail(h, "path-through-non-message", op, where)
 					okPath = false
 					break
 				}
@@ -374,7 +445,7 @@ func fieldClass(fd protoreflect.FieldDescriptor) string {
 // counts), otherwise the element of a list / value of a map.
 func checkField(h *vh.H, op, via, where string, fs j5schema.FieldSchema, fd protoreflect.FieldDescriptor, top bool, idx nameIndex, seen map[string]bool) {
 	mismatch := func(what string) {
-		h.Fail("kind-mismatch:"+what, op, fmt.Sprintf("%s (%s): schema %T vs proto %s", where, via, fs, fieldClass(fd)))
+		fail(h, "kind-mismatch:"+what, op, fmt.Sprintf("%s (%s): schema %T vs proto %s", where, via, fs, fieldClass(fd)))
 	}
 	if top {
 		switch t := fs.(type) {
@@ -400,12 +471,12 @@ func checkField(h *vh.H, op, via, where string, fs j5schema.FieldSchema, fd prot
 	}
 	refOK := func(r *j5schema.RefSchema, want protoreflect.Descriptor) bool {
 		if r == nil || r.To == nil || isNilRoot(r.To) {
-			h.Fail("ref-unlinked", op, where)
+			fail(h, "ref-unlinked", op, where)
 			return false
 		}
 		p, n := splitName(want)
 		if r.Package.Name != p || r.Schema != n {
-			h.Fail("ref-wrong-target", op, fmt.Sprintf("%s: ref %s.%s for %s", where, r.Package.Name, r.Schema, want.FullName()))
+			fail(h, "ref-wrong-target", op, fmt.Sprintf("%s: ref %s.%s for %s", where, r.Package.Name, r.Schema, want.FullName()))
 			return false
 		}
 		return true
@@ -418,7 +489,7 @@ func checkField(h *vh.H, op, via, where string, fs j5schema.FieldSchema, fd prot
 		}
 		if refOK(t.Ref, fd.Message()) {
 			if _, ok := t.Ref.To.(*j5schema.ObjectSchema); !ok {
-				h.Fail("ref-kind-mismatch:object", op, fmt.Sprintf("%s: object field links to %T", where, t.Ref.To))
+				fail(h, "ref-kind-mismatch:object", op, fmt.Sprintf("%s: object field links to %T", where, t.Ref.To))
 				return
 			}
 			checkRoot(h, op, via, t.Ref.To, idx, seen)
@@ -430,7 +501,7 @@ func checkField(h *vh.H, op, via, where string, fs j5schema.FieldSchema, fd prot
 		}
 		if refOK(t.Ref, fd.Message()) {
 			if _, ok := t.Ref.To.(*j5schema.OneofSchema); !ok {
-				h.Fail("ref-kind-mismatch:oneof", op, fmt.Sprintf("%s: oneof field links to %T", where, t.Ref.To))
+				fail(h, "ref-kind-mismatch:oneof", op, fmt.Sprintf("%s: oneof field links to %T", where, t.Ref.To))
 				return
 			}
 			checkRoot(h, op, via, t.Ref.To, idx, seen)
@@ -442,7 +513,7 @@ func checkField(h *vh.H, op, via, where string, fs j5schema.FieldSchema, fd prot
 		}
 		if refOK(t.Ref, fd.Enum()) {
 			if _, ok := t.Ref.To.(*j5schema.EnumSchema); !ok {
-				h.Fail("ref-kind-mismatch:enum", op, fmt.Sprintf("%s: enum field links to %T", where, t.Ref.To))
+				fail(h, "ref-kind-mismatch:enum", op, fmt.Sprintf("%s: enum field links to %T", where, t.Ref.To))
 			}
 		}
 	case *j5schema.AnyField:
@@ -461,7 +532,7 @@ func checkField(h *vh.H, op, via, where string, fs j5schema.FieldSchema, fd prot
 			mismatch(fmt.Sprintf("%s%d-for-%s", tag, fm, got))
 		}
 	case nil:
-		h.Fail("property-without-schema", op, where)
+		fail(h, "property-without-schema", op, where)
 	}
 }
 
@@ -507,47 +578,62 @@ func scalarWants(f *schema_j5pb.Field) map[string]bool {
 
 // ---------------------------------------------------------------- codec oracle
 
-func checkCodec(h *vh.H, op string, codec *j5codec.Codec, md protoreflect.MessageDescriptor, class string) {
-	name := string(md.FullName())
-	run := func(what string, f func() error) (ok bool) {
-		var err error
-		site, panicked, msg := guard(func() { err = f() })
-		if panicked {
-			h.Fail("panic:codec:"+what+":"+site, op, name+": "+msg)
-			return false
-		}
-		if err != nil {
-			if class == "ok" {
-				h.Fail("codec-error:"+what, op, name+": "+err.Error())
-			}
-			return false
-		}
-		return true
-	}
-	// empty message
-	var js []byte
-	if run("encode-empty", func() (err error) { js, err = codec.ProtoToJSON(dynamicpb.NewMessage(md)); return }) {
-		h.Count("reflect.codec.empty-ok")
-		run("decode-empty", func() error { return codec.JSONToProto(js, dynamicpb.NewMessage(md)) })
-	}
-	// query decoder on an unknown key must answer with an error, never a nil dereference
-	var qerr error
-	site, panicked, msg := guard(func() {
-		qerr = codec.QueryToProto(url.Values{"zzUnknown": []string{"1"}}, dynamicpb.NewMessage(md))
-	})
-	_ = qerr
+// codecRun runs one codec call under recover; a panic is always a finding, an error only when the
+// type was reflected successfully (class ok).
+func codecRun(h *vh.H, op, name, class, what string, f func() error) bool {
+	var err error
+	site, panicked, msg := guard(func() { err = f() })
 	if panicked {
-		h.Fail("panic:codec:query:"+site, op, name+": "+msg)
+		fail(h, "panic:codec:"+what+":"+site, op, name+": "+msg)
+		return false
+	}
+	if err != nil {
+		if class == "ok" {
+			fail(h, "codec-error:"+what, op, name+": "+err.Error())
+		}
+		return false
+	}
+	return true
+}
+
+func decodeCheck(codec *j5codec.Codec, md protoreflect.MessageDescriptor, js []byte) error {
+	if err := codec.JSONToProto(js, dynamicpb.NewMessage(md)); err != nil {
+		return fmt.Errorf("%w; json %s", err, js)
+	}
+	return nil
+}
+
+// checkCodec: empty message, query decoder, then one populated field at a time (narrow
+// signatures; a message-typed field is present but empty — its type has its own iteration).
+// Returns false when anything failed.
+func checkCodec(h *vh.H, op string, codec *j5codec.Codec, md protoreflect.MessageDescriptor, class string) bool {
+	name := string(md.FullName())
+	good := true
+	var js []byte
+	if codecRun(h, op, name, class, "encode-empty", func() (err error) { js, err = codec.ProtoToJSON(dynamicpb.NewMessage(md)); return }) {
+		h.Count("reflect.codec.empty-ok")
+		if !codecRun(h, op, name, class, "decode-empty", func() error { return decodeCheck(codec, md, js) }) {
+			good = false
+		}
+	} else if class == "ok" {
+		good = false
+	}
+	// the query decoder on an unknown key must answer with an error, never a nil dereference
+	site, panicked, msg := guard(func() {
+		_ = codec.QueryToProto(url.Values{"zzUnknown": []string{"1"}}, dynamicpb.NewMessage(md))
+	})
+	if panicked {
+		fail(h, "panic:codec:query:"+site, op, name+": "+msg)
+		good = false
 	}
 	if class != "ok" {
-		return
+		return good
 	}
-	// populated: one field at a time (narrow signatures), then all together
 	fields := md.Fields()
 	for i := 0; i < fields.Len(); i++ {
 		fd := fields.Get(i)
 		m := dynamicpb.NewMessage(md)
-		if !populateField(m, fd, 2) {
+		if !populateField(m, fd, 0) {
 			continue
 		}
 		card := "single"
@@ -562,17 +648,33 @@ func checkCodec(h *vh.H, op string, codec *j5codec.Codec, md protoreflect.Messag
 		}
 		cls := card + "-" + fieldClass(fd)
 		var js []byte
-		if run("encode:"+cls, func() (err error) { js, err = codec.ProtoToJSON(m); return }) {
+		if codecRun(h, op, name, class, "encode:"+cls, func() (err error) { js, err = codec.ProtoToJSON(m); return }) {
 			h.Count("reflect.codec.field-ok")
-			run("decode:"+cls, func() error { return codec.JSONToProto(js, dynamicpb.NewMessage(md)) })
+			if !codecRun(h, op, name, class, "decode:"+cls, func() error { return decodeCheck(codec, md, js) }) {
+				good = false
+			}
+		} else {
+			good = false
 		}
 	}
+	return good
+}
+
+// checkCodecAll: every field populated (nested messages one level deep).
+func checkCodecAll(h *vh.H, op string, codec *j5codec.Codec, md protoreflect.MessageDescriptor) {
+	name := string(md.FullName())
+	fields := md.Fields()
+	wrapper := j5schema.IsOneofWrapper(md)
 	full := dynamicpb.NewMessage(md)
 	for i := 0; i < fields.Len(); i++ {
-		populateField(full, fields.Get(i), 2)
+		if populateField(full, fields.Get(i), 1) && wrapper {
+			break // a oneof wrapper holds exactly one value
+		}
 	}
-	if run("encode:all", func() (err error) { js, err = codec.ProtoToJSON(full); return }) {
-		run("decode:all", func() error { return codec.JSONToProto(js, dynamicpb.NewMessage(md)) })
+	var js []byte
+	if codecRun(h, op, name, "ok", "encode:all", func() (err error) { js, err = codec.ProtoToJSON(full); return }) {
+		h.Count("reflect.codec.all-ok")
+		codecRun(h, op, name, "ok", "decode:all", func() error { return decodeCheck(codec, md, js) })
 	}
 }
 
